@@ -231,7 +231,7 @@ func checkMSL(c *c17case, r *report) {
 			switch {
 			case c.Opt.MslFake:
 				if !hasAttr(a.attrs, "user(fake0)") {
-					r.class("msl:fake-binding-without-user(fake0)")
+					r.fail("msl.resource.fake", "entry point %q, resource %q has no PerEntryPointMap entry and FakeMissingBindings is on, but the text says [[%s]] instead of [[user(fake0)]]", e.Name, res.Name, strings.Join(a.attrs, ", "))
 				}
 			case has:
 				key := fmt.Sprintf("%s(%d)", kind, n)
